@@ -19,6 +19,9 @@ RRsets == {
   << Rr(<<a, ex>>, 1, <<Raw(<<10, 0, 0, 2>>)>>), Rr(<<a, ex>>, 1, <<Raw(<<10, 0, 0, 1>>)>>) >>,
   << Rr(<<Star, ex>>, 2, <<Nm(<<b, Ex>>)>>) >>,
   << Rr(<<ex>>, 16, <<Raw(<<1, 120>>)>>) >> }
+\* RFC 4035 2.2: "An RRSIG RR itself MUST NOT be signed"
+SigRrset == << Rr(<<a, ex>>, 46, <<Raw(<<0, 1, 15, 2, 0, 0, 1, 44, 0, 0, 0, 100, 0, 0, 0, 0, 59, 182>>),
+                                   Nm(<<Ex>>), Raw(<<1, 2, 3, 4>>)>>) >>
 Junk == {<<0>>, <<222, 173, 190, 239>>}
 
 VARIABLES scratch,     \* the caller's buffer between calls
@@ -40,6 +43,13 @@ Call(rrs, fails) ==
      /\ hist' = Append(hist, [op |-> "sign", rrs |-> rrs, fails |-> fails, junk |-> <<>>,
                               handed |-> buf, ok |-> ~fails])
 
+\* refused before the buffer is touched
+SignRefused ==
+  /\ Len(hist) < MaxOps
+  /\ hist' = Append(hist, [op |-> "sign", rrs |-> SigRrset, fails |-> FALSE, junk |-> <<>>,
+                           handed |-> <<>>, ok |-> FALSE])
+  /\ UNCHANGED <<scratch, handed, want>>
+
 SignOk    == Len(hist) < MaxOps /\ \E rrs \in RRsets : Call(rrs, FALSE)
 SignFails == Len(hist) < MaxOps /\ \E rrs \in RRsets : Call(rrs, TRUE)
 CallerScratch ==
@@ -50,7 +60,7 @@ CallerScratch ==
                                  handed |-> <<>>, ok |-> TRUE])
   /\ UNCHANGED <<handed, want>>
 
-Next == SignOk \/ SignFails \/ CallerScratch
+Next == SignOk \/ SignFails \/ CallerScratch \/ SignRefused
 Spec == Init /\ [][Next]_vars
 
 HandedIsSignedData == handed = want
